@@ -6,21 +6,23 @@ package px
 
 import (
 	"bytes"
+	"fmt"
 	"io"
 	"net"
+	"net/http"
 	"sync"
 	"time"
 )
 
 type Frame struct {
-	Conn    int    `json:"conn"`
-	Dir     string `json:"dir"` // c2s | s2c
-	Opcode  int    `json:"opcode"`
-	Fin     bool   `json:"fin"`
-	Payload []byte `json:"-"`
-	Text    string `json:"text"`
-	Index   int    `json:"index"` // index among data frames of this direction on this connection
-	At      time.Time `json:"-"`  // when the proxy had read the whole frame
+	Conn    int       `json:"conn"`
+	Dir     string    `json:"dir"` // c2s | s2c
+	Opcode  int       `json:"opcode"`
+	Fin     bool      `json:"fin"`
+	Payload []byte    `json:"-"`
+	Text    string    `json:"text"`
+	Index   int       `json:"index"` // index among data frames of this direction on this connection
+	At      time.Time `json:"-"`     // when the proxy had read the whole frame
 }
 
 // Fault describes where to strike.  Positions: before | header | mid | lastbyte | after.
@@ -38,14 +40,15 @@ type Proxy struct {
 	ln     net.Listener
 	target string
 
-	mu       sync.Mutex
-	frames   []Frame
-	faults   []*Fault
-	accepted int
-	Refuse   bool // refuse new connections (server unreachable)
-	pairs    []*pair
-	closed   bool
-	Accepts  []time.Time
+	mu         sync.Mutex
+	frames     []Frame
+	faults     []*Fault
+	accepted   int
+	Refuse     bool // refuse new connections (server unreachable)
+	RefuseHTTP int  // answer the upgrade request of new connections with this HTTP status (a front end while the service restarts)
+	pairs      []*pair
+	closed     bool
+	Accepts    []time.Time
 }
 
 type pair struct {
@@ -97,6 +100,13 @@ func (p *Proxy) Close() {
 		pr.c.Close()
 		pr.s.Close()
 	}
+}
+
+// SetRefuseHTTP makes the proxy answer new connections itself with the given HTTP status (0 = off).
+func (p *Proxy) SetRefuseHTTP(status int) {
+	p.mu.Lock()
+	p.RefuseHTTP = status
+	p.mu.Unlock()
 }
 
 func (p *Proxy) SetRefuse(v bool) {
@@ -158,8 +168,26 @@ func (p *Proxy) acceptLoop() {
 		}
 		p.mu.Lock()
 		refuse := p.Refuse
+		status := p.RefuseHTTP
 		p.Accepts = append(p.Accepts, time.Now())
 		p.mu.Unlock()
+		if status != 0 && !refuse {
+			go func(c net.Conn) {
+				defer c.Close()
+				c.SetDeadline(time.Now().Add(2 * time.Second))
+				buf := make([]byte, 0, 4096)
+				tmp := make([]byte, 1024)
+				for !bytes.Contains(buf, []byte("\r\n\r\n")) {
+					k, err := c.Read(tmp)
+					buf = append(buf, tmp[:k]...)
+					if err != nil {
+						return
+					}
+				}
+				fmt.Fprintf(c, "HTTP/1.1 %d %s\r\nContent-Type: text/plain\r\nContent-Length: 12\r\nConnection: close\r\n\r\nunavailable\n", status, http.StatusText(status))
+			}(c)
+			continue
+		}
 		if refuse {
 			if tc, ok := c.(*net.TCPConn); ok {
 				tc.SetLinger(0)
